@@ -97,6 +97,13 @@ CLAIMS["C15"] = ("constant-operand and builder-chain analysis of the jwalk walke
     "at the '-' position. Does not decide jwalk's ordering relation or symlink cycles.",
     "DESIGN.md §3 C15")
 
+CLAIMS["C04"] = ("regular-language analysis of the const-evaluated DATETIME_PARSE_DATAS (173 regexes): DFA-product language inclusion against pre-check automata whose byte classes are read from the helpers' MIR, HIR group structure (mandatory groups, finite group languages, lengths) against the converter's requirements tabulated from MIR, decision-tree enumeration of the month converter",
+    "Static check over ALL strings of each row's regular language: the byte pre-check selected for the row never rejects a string its regex "
+    "matches; every capture group the converter unwraps for the row's DTFSSet is on every match path; day/fraction lengths fit and all fraction "
+    "arms pad to nine digits; every capturable month spelling is accepted by the month converter; every capturable zone name is a key of the "
+    "zone table; cgn_first/last exist. Decides table/code agreement only, not chrono's arithmetic nor which row wins for a line.",
+    "DESIGN.md §3 C04")
+
 NA_REASON = {}
 
 checks = []
